@@ -10,7 +10,7 @@ from props import packlib as P
 from props.C10 import sx  # s-expression reader (also raises the coqc stack limit)
 
 ID = "C08"
-THEOREMS = ["C08_resolution_sound", "C08_resolution_complete", "C08_idx_is_git", "C08_idx_canonical"]
+THEOREMS = ["C08_resolution_sound", "C08_resolution_complete", "C08_resolution_unique", "C08_idx_is_git", "C08_idx_canonical"]
 MODEL_FILES = ["PackBytes.v", "Idx.v", "PackParse.v"]
 MODELLED = (
     "plumbing/format/packfile: Scanner (pack header, objectEntry: entry-size varint, OFS varint with "
@@ -103,7 +103,7 @@ class Main(Suite):
     go_cmd = "c08"
     coq_imports = "From GoGit Require Import Model.PackParse."
     quick_n = 32
-    thorough_n = 600
+    thorough_n = 160
     coq_chunk = 6
 
     def gen(self, rng, n, tier):
